@@ -36,6 +36,8 @@ inductive Err
 
 abbrev R := Except Err
 
+deriving instance DecidableEq for Except
+
 /-- what modes carry -/
 class DataSem (D : Type) where
   vac : D
@@ -181,9 +183,15 @@ def append (p : Prog) (op : Op) (reg deps : List Ref) : R (Prog × List RegRef) 
         .ok ({ p with unused := p.unused.filter (fun i => !inds.contains i),
                       circuit := p.circuit ++ [⟨op, inds⟩] }, rs)
 
+/-- `self.ns is not None and self.ns != len(reg)` -/
+def nsBad (ns : Option Nat) (len : Nat) : Bool :=
+  match ns with
+  | some k => k != len
+  | none => false
+
 /-- `Operation.__or__` for an operation acting on `ns` subsystems (`none`: any number) -/
 def opOr (p : Prog) (op : Op) (ns : Option Nat) (reg deps : List Ref) : R (Prog × List RegRef) :=
-  if reg.isEmpty || (match ns with | some k => k != reg.length | none => false) then .error .value
+  if reg.isEmpty || nsBad ns reg.length then .error .value
   else p.append op reg deps
 
 /-- `ops.New(n)` -/
@@ -274,7 +282,7 @@ structure Fock (D : Type) where
   initModes : Nat
   mm : ModeMap
   axes : List D        -- what each tensor axis (pair) carries; `_num_modes = axes.length`
-  deriving Repr
+  deriving Repr, DecidableEq
 
 namespace Fock
 variable {D : Type} [DataSem D]
@@ -370,7 +378,7 @@ structure PS (D : Type) where
   nlen : Nat
   active : List (Option Nat)
   rows : List D        -- what stored mode `i` carries (row/column i of nmat, mmat, mean / means, covs)
-  deriving Repr
+  deriving Repr, DecidableEq
 
 namespace PS
 variable {D : Type} [DataSem D]
